@@ -54,6 +54,8 @@ pub struct RandomDir {
     pub cb_budget: u32,
     /// operations to run next (scenario builders, post-fault probes)
     pub queue: std::collections::VecDeque<Value>,
+    /// armed by a scenario: the destructor callback after this many others panics
+    pub arm_drop: Option<u32>,
 }
 
 /// Plain script: callbacks do nothing, except that the k-th callback of a kind
@@ -222,6 +224,19 @@ pub fn next_in_cb<P: Pad>(kind: CbKind, o: u32) -> Decision {
 fn random_in_cb<P: Pad>(kind: CbKind, o: u32) -> Decision {
     let panicking = std::thread::panicking();
     let act = with_random(|r| {
+        if kind == CbKind::Drop && !panicking {
+            match r.arm_drop {
+                Some(0) => {
+                    r.arm_drop = None;
+                    if r.faults < r.cfg.max_faults {
+                        r.faults += 1;
+                        return 2;
+                    }
+                }
+                Some(k) => r.arm_drop = Some(k - 1),
+                None => {}
+            }
+        }
         if r.cb_budget == 0 || !r.rng.gen_bool(r.cfg.cb_act_p) {
             if !panicking && r.faults < r.cfg.max_faults && r.rng.gen_bool(r.cfg.fault_p) {
                 r.faults += 1;
@@ -485,7 +500,7 @@ pub fn gen_top_op<P: Pad>(r: &mut RandomDir, w: &mut World<P>) -> Option<Value> 
 }
 
 pub fn new_random(seed: u64, cfg: RandomCfg) -> Dir {
-    Dir::Random(Box::new(RandomDir { rng: StdRng::seed_from_u64(seed), cfg, faults: 0, cb_budget: 0, queue: Default::default() }))
+    Dir::Random(Box::new(RandomDir { rng: StdRng::seed_from_u64(seed), cfg, faults: 0, cb_budget: 0, queue: Default::default(), arm_drop: None }))
 }
 
 /// After a caught panic: poke the objects the program still holds in the way that exposes stale collector
@@ -564,6 +579,8 @@ pub fn gen_dense_garbage<P: Pad>(r: &mut RandomDir, w: &mut World<P>) {
     if w.ns == 0 {
         return;
     }
+    let weak = r.cfg.weak;
+    let faults = r.cfg.max_faults > 0 && r.faults < r.cfg.max_faults;
     let rng = &mut r.rng;
     let k = rng.gen_range(3..=5u32);
     let ids: Vec<u32> = (0..k).map(|i| w.next_id + i).collect();
@@ -571,6 +588,13 @@ pub fn gen_dense_garbage<P: Pad>(r: &mut RandomDir, w: &mut World<P>) {
     for o in &ids {
         q.push_back(json!({"e": "call", "op": "new", "o": o}));
     }
+    // sometimes the program keeps Weak pointers to members, and a destructor of the set panics in the collection:
+    // whatever the unwound destructor phase leaves behind must not be handed out by upgrade afterwards
+    let observed: Vec<u32> = if weak && rng.gen_bool(0.5) { ids.iter().copied().filter(|_| rng.gen_bool(0.5)).collect() } else { Vec::new() };
+    for o in &observed {
+        q.push_back(json!({"e": "call", "op": "downgrade", "o": o}));
+    }
+    let arm = if faults && rng.gen_bool(0.4) { Some(rng.gen_range(0..3u32)) } else { None };
     for a in &ids {
         for i in 1..=w.ns {
             if rng.gen_bool(0.8) {
@@ -588,9 +612,18 @@ pub fn gen_dense_garbage<P: Pad>(r: &mut RandomDir, w: &mut World<P>) {
     for o in &order {
         q.push_back(json!({"e": "call", "op": "drop", "o": o}));
     }
-    q.push_back(json!({"e": "call", "op": "collect"}));
+    match arm {
+        Some(k) if keep.is_none() => q.push_back(json!({"e": "call", "op": "collect", "armdrop": k})),
+        _ => q.push_back(json!({"e": "call", "op": "collect"})),
+    }
     if let Some(o) = keep {
         q.push_back(json!({"e": "call", "op": "drop", "o": o}));
+        q.push_back(json!({"e": "call", "op": "collect"}));
+    }
+    for o in &observed {
+        q.push_back(json!({"e": "call", "op": "upgrade", "o": o}));
+    }
+    if !observed.is_empty() {
         q.push_back(json!({"e": "call", "op": "collect"}));
     }
 }
